@@ -145,6 +145,13 @@ def conform_traces(traces, scratch, shards=16, module="TraceCore.tla", cfg="Trac
             fh.write(json.dumps([traces[i] for i in ids], separators=(",", ":")))
         files.append(f)
 
+    if cfg == "TraceCore.cfg":        # generated: the deviation switches live in harness/devs.py
+        from harness import devs
+        cfg = os.path.join(scratch, "TraceCore.gen.cfg")
+        with open(cfg, "w") as fh:
+            fh.write("CONSTANTS\n  MaxFrames = 20\n" + "".join("  %s = %s\n" % kv for kv in sorted(devs.devs().items()))
+                     + "INIT Init\nNEXT Next\nCONSTRAINT Progress\nVIEW View\nPOSTCONDITION Report\nCHECK_DEADLOCK FALSE\n")
+
     def one(si):
         return run_tlc(module, cfg, scratch, workers=1, env={"TRACE_FILE": files[si]}, timeout=timeout,
                        heap="3g", gc=SMALL_JVM,
